@@ -62,30 +62,30 @@ def run_expr(e):
 
 
 def run_load(job):
-    """API level: merchant_utils.get_all_rules / get_transforms on a file holding `text`."""
+    """API level: merchant_utils.get_all_rules / get_transforms / get_tag_only_rules on a file holding `text`.
+    Each loader is called on its own (engine cache and report memory cleared first); for each: the value
+    returned, an escaping exception, and whatever reached the user (warnings, stdout, stderr)."""
     from tally import merchant_utils
     os.makedirs(job['dir'], exist_ok=True)
     path = os.path.join(job['dir'], 'merchants.rules')
     with open(path, 'w', encoding='utf-8', newline='') as f:
         f.write(job['text'])
     out = {}
-    buf_o, buf_e = io.StringIO(), io.StringIO()
-    with warnings.catch_warnings(record=True) as w, contextlib.redirect_stdout(buf_o), contextlib.redirect_stderr(buf_e):
-        warnings.simplefilter('always')
-        merchant_utils.clear_engine_cache()
-        try:
-            rules = merchant_utils.get_all_rules(path)
-            out['rules'] = [r[1] for r in rules]
-        except Exception as x:  # noqa
-            out['rules_exc'] = type(x).__name__
-            out['rules_exc_line'] = getattr(x, 'line_number', None)
-        try:
-            tr = merchant_utils.get_transforms(path)
-            out['transforms'] = [list(t) for t in tr]
-        except Exception as x:  # noqa
-            out['transforms_exc'] = type(x).__name__
-    out['warnings'] = [str(x.message) for x in w]
-    out['printed'] = buf_o.getvalue() + buf_e.getvalue()
+
+    def call(tag, fn, conv):
+        buf_o, buf_e = io.StringIO(), io.StringIO()
+        with warnings.catch_warnings(record=True) as w, contextlib.redirect_stdout(buf_o), contextlib.redirect_stderr(buf_e):
+            warnings.simplefilter('always')
+            merchant_utils.clear_engine_cache()
+            try:
+                out[tag] = conv(fn(path))
+            except Exception as x:  # noqa
+                out[tag + '_exc'] = type(x).__name__
+                out[tag + '_exc_line'] = getattr(x, 'line_number', None)
+        out[tag + '_said'] = [str(x.message) for x in w] + [t for t in (buf_o.getvalue(), buf_e.getvalue()) if t.strip()]
+    call('transforms', merchant_utils.get_transforms, lambda tr: [list(t) for t in tr])
+    call('rules', merchant_utils.get_all_rules, lambda rules: [r[1] for r in rules])
+    call('tag_rules', merchant_utils.get_tag_only_rules, lambda rs: [r.name for r in rs])
     return out
 
 
